@@ -213,13 +213,13 @@ TIE_TEXT = {
     "TieTables": "Lru::{new,insert,grow,get} and BackedRobinhoodTable::{new,propagate,grow,get_or_insert_by_hash,get_by_hash}",
     "TieOptim": "marginal_map / meu / bb with their helpers, FiniteField::mul, Polynomial::{zero,one,add,mul}",
     "TieCompile": "compile_cnf, compile_cnf_with_assignments, compile_logical_expr, compile_plan, BottomUpPlan::from_dtree, the BDD and vtree serialisers, from_sexpr, LogicalExpr::eval",
-    "TieSddCore": "the SDD builder core (35 functions: and and its four cases, canonicalize, unique_bdd / unique_or, the derived operations, condition; compress is outside the translator's grammar)",
+    "TieSddCore": "the SDD builder core (35 functions: and and its four cases, canonicalize, unique_bdd / unique_or, the derived operations, condition; compress with its in-place swap_remove loops)",
     "TieVTree": "vtree.rs / btree.rs / dtree.rs (28 functions incl. VTreeManager::new, lca, is_prime_*, from_dtree, DTree::from_cnf)",
     "TieCnfOrd": "Cnf::{interaction_graph, min_fill_order, linear_order, force_order} and helpers",
     "TieCnfUp": "Literal / VarSet / PartialModel / Cnf / CnfHasher / AssignmentIter and the propagator's decide loop, SATSolver::{decide,pop,…} (53 functions)",
     "TieDnnf": "the decision-DNNF builder (conjoin_implied, topdown_h, compile_cnf_topdown, cond_helper, both get_or_insert)",
     "TieFfi": "the diagram-building C exports (operation and argument positions), bdd_eq / topvar / low / high",
-    "TieSddQ": "SDD queries and the semantic SDD builder",
+    "TieSddQ": "SDD pointer accessors and the derived / hand-written orders (Ord of SddPtr, BinarySDD, SddOr), the SDD scratch traversals (clear_scratch, count_nodes, fold with its cache probe), cached_semantic_hash on all three node kinds, and the semantic SDD builder (get_or_insert with the complement probe, apply cache, sdd_eq, stats; 23 units)",
     "TieScratch": "the BDD scratch mechanism and every memoised traversal (clear_scratch, fold / bdd_fold with both-polarity memo, count_nodes, the default wmc / evaluate / semantic_hash = fold + clear, condition's clean-up) plus a census of direct scratch-API calls per function (40 entries)",
     "TieCli": "the command-line tools' glue (single_wmc, partial_wmcs, order and weight handling, the two converters' main) and the remaining C wrappers (robdd_model_count, weight tables, polynomial marshalling, CNF / order / dtree / vtree constructors; 37 entries)",
 }
@@ -309,7 +309,7 @@ PROPS = {
         "explanation": "C13.* + Tie.* theorems; ring stream: implementation vs exact arithmetic, vs the mirrored model, and the laws on the implementation's own outputs.",
     },
     "C07": {
-        "modules": ["RsddModel.Props.C07Bdd", "RsddModel.Props.C07Sdd", "RsddModel.Props.TieSem", "RsddModel.Props.TieFF", "RsddModel.Props.TieOptim", "RsddModel.Props.TieScratch"],
+        "modules": ["RsddModel.Props.C07Bdd", "RsddModel.Props.C07Sdd", "RsddModel.Props.TieSem", "RsddModel.Props.TieFF", "RsddModel.Props.TieOptim", "RsddModel.Props.TieScratch", "RsddModel.Props.TieSddQ"],
         "streams": [WMC_STREAM, HASH_STREAM],
         "rule": "diagrams taken from builder pools (three largest distinct + one random per program), random orders; normalised field weights for a "
                 "random exported prime, arbitrary integer weights 0..5, dyadic real weights; non-trivial = diagram has a node below a node",
@@ -339,7 +339,7 @@ PROPS = {
         "explanation": "C08.* theorems; wmc stream checks function, paths, counts and exact equality with the mirrored smooth.",
     },
     "C03": {
-        "modules": ["RsddModel.Props.C03", "RsddModel.Props.C03Total", "RsddModel.Props.TieIte", "RsddModel.Props.TieSddCore"],
+        "modules": ["RsddModel.Props.C03", "RsddModel.Props.C03Total", "RsddModel.Props.TieIte", "RsddModel.Props.TieSddCore", "RsddModel.Props.TieSddCoreSource"],
         "streams": [SDD_STREAM],
         "rule": "operation programs over CompressionSddBuilder: vtrees right-linear / left-linear / balanced / random splits over identity or shuffled "
                 "labels, compression on (3/4) and off (1/4), hooked unique-table capacity 4/8/default; non-trivial = a result has a decision node "
@@ -416,7 +416,7 @@ PROPS = {
         "explanation": "C06.* theorems; td stream: implementation vs brute force (models, is_false, once-per-path, all conditionings), vs mirrored compiler on mirrored propagator.",
     },
     "C10": {
-        "modules": ["RsddModel.Props.C10", "RsddModel.Props.C10Sdd", "RsddModel.Props.TieScratch"],
+        "modules": ["RsddModel.Props.C10", "RsddModel.Props.C10Sdd", "RsddModel.Props.TieScratch", "RsddModel.Props.TieSddQ"],
         "streams": [QUERY_STREAM],
         "rule": "a builder program, then 4-14 queries drawn from {count in FiniteField, count in reals, evaluate, count_nodes, semantic_hash, marginal_map, "
                 "smooth, condition} on the five largest distinct diagrams of the pool (they share nodes); each answer is compared with the same query "
@@ -490,7 +490,7 @@ PROPS = {
         "explanation": "C17.* theorems; ser stream: real parsers/serialisers vs specification-level readers of the same text / JSON.",
     },
     "C04": {
-        "modules": ["RsddModel.Props.C04", "RsddModel.Props.TieVTree", "RsddModel.Props.TieTables", "RsddModel.Props.TieTablesSource", "RsddModel.Props.TieSddCore"],
+        "modules": ["RsddModel.Props.C04", "RsddModel.Props.TieVTree", "RsddModel.Props.TieTables", "RsddModel.Props.TieTablesSource", "RsddModel.Props.TieSddCore", "RsddModel.Props.TieSddCoreSource", "RsddModel.Props.TieSddQ"],
         "streams": [SDD_STREAM],
         "rule": "as C03; with compression on, every decision node reachable from every result is checked (from its printed canonical form and truth "
                 "tables) for: primes non-false, pairwise exclusive, exhaustive, over the left vtree child's variables; subs over the right child's "
@@ -564,7 +564,7 @@ PROPS = {
         "explanation": "C09.* theorems; up stream: every observation vs brute-force entailment / fixpoint / flag / hash-vs-residual, pop vs the earlier observation, and exact equality with the mirrored model incl. watch lists.",
     },
     "C11": {
-        "modules": ["RsddModel.Props.C11Bdd", "RsddModel.Props.C11", "RsddModel.Props.C06", "RsddModel.Props.TieDnnf", "RsddModel.Props.TieDnnfSource"],
+        "modules": ["RsddModel.Props.C11Bdd", "RsddModel.Props.C11", "RsddModel.Props.C06", "RsddModel.Props.TieDnnf", "RsddModel.Props.TieDnnfSource", "RsddModel.Props.TieSddQ"],
         "streams": [HASH_STREAM],
         "rule": "one program of builder operations evaluated in five builders (ROBDD under two orders, compressing SDD builder under one vtree, "
                 "uncompressed SDD builder under another, semantic-hash SDD builder) and CNFs compiled bottom-up and top-down under two orders; the "
